@@ -26,6 +26,9 @@ import (
 type CLICase struct {
 	Seed uint64 `json:"seed"`
 	Race bool   `json:"race_build,omitempty"`
+	// ManyIDs > 0: that many tile matrices in one run (more than any batch size or CPU count one would pick),
+	// with features sized for every one of them
+	ManyIDs int `json:"many_ids,omitempty"`
 }
 
 func (c *CLICase) JSON() []byte { b, _ := json.Marshal(c); return b }
@@ -35,6 +38,7 @@ type cliPlan struct {
 	tmsDoc                    []byte // for hook H2 (synthetic sets); nil for built-ins
 	tmsSpec                   grid.Spec
 	ids                       []int
+	spread                    uint // > 0: feature sizes spread over this many levels above the deepest
 	page                      int
 	keep, iog, rwo, overwrite bool
 	targetRel                 string // relative target path given on the command line
@@ -68,7 +72,7 @@ func loadPlanTMS(pl *cliPlan, dir string) (tms20.TileMatrixSet, error) {
 }
 
 // placePolygon puts a lattice polygon somewhere inside the grid of the request.
-func placePolygon(rng *fw.Rng, gs *grid.Set, req grid.Request, lp gen.Poly, outside bool) geom.Polygon {
+func placePolygon(rng *fw.Rng, gs *grid.Set, req grid.Request, lp gen.Poly, outside bool, spread uint) geom.Polygon {
 	pix := req.ResD
 	q := pix / 4
 	if rng.Chance(1, 5) {
@@ -76,6 +80,14 @@ func placePolygon(rng *fw.Rng, gs *grid.Set, req grid.Request, lp gen.Poly, outs
 	}
 	n := int64(1) << req.D
 	_, _, maxx, maxy := lp.Bounds()
+	if spread > 0 { // a feature a few pixels wide at one of the requested levels, not only the deepest
+		for sh := uint(rng.Intn(int(spread) + 1)); ; sh-- {
+			q = (pix << sh) / 4
+			if sh == 0 || max(maxx, maxy)*q/pix+8 < n/2 {
+				break
+			}
+		}
+	}
 	wpx := max(maxx, maxy)*q/pix + 4
 	px, py := 2+rng.Int63n(max(n-wpx-4, 1)), 2+rng.Int63n(max(n-wpx-4, 1))
 	if rng.Bool() {
@@ -123,6 +135,24 @@ func buildCLIPlan(cc *CLICase) *cliPlan {
 		pl.tmsName = fw.Pick(rng, []string{"WorldCRS84Quad", "CDB1GlobalGrid", "GNOSISGlobalGrid", "UTM31WGS84Quad", "CanadianNAD83_LCC", "LINZAntarticaMapTilegrid", "WGS1984Quad"})
 		pl.srs = 4326
 		pl.ids = []int{1 + rng.Intn(3)}
+	}
+	if cc.ManyIDs > 0 && !pl.nonQuad && pl.tmsDoc == nil {
+		r2 := fw.NewRng(cc.Seed ^ 0x77aa)
+		many := min(cc.ManyIDs, 16)
+		top := 9 + r2.Intn(7) // deepest id 9..15 (every built-in quadtree set used here has ids 0..15)
+		if many > top+1 {
+			top = many - 1
+		}
+		chosen := append([]int{top}, r2.Perm(top)[:many-1]...)
+		pl.ids = nil
+		for _, i := range r2.Perm(len(chosen)) {
+			pl.ids = append(pl.ids, chosen[i])
+		}
+		lo := pl.ids[0]
+		for _, id := range pl.ids {
+			lo = min(lo, id)
+		}
+		pl.spread = uint(top - lo)
 	}
 	pl.page = fw.Pick(rng, []int{1, 2, 3, 1000})
 	pl.keep, pl.iog, pl.rwo, pl.overwrite = rng.Bool(), rng.Bool(), rng.Chance(1, 3), rng.Bool()
@@ -188,13 +218,13 @@ func fillTables(cc *CLICase, pl *cliPlan, gs *grid.Set) {
 			switch t.GeomType {
 			case "POLYGON":
 				lp := gen.ByName(fw.Pick(rng, cliKinds), rng, int64(12+rng.Intn(40)))
-				r.Geom = placePolygon(rng, gs, req, lp, outside)
+				r.Geom = placePolygon(rng, gs, req, lp, outside, pl.spread)
 				pl.hasOutside = pl.hasOutside || outside
 			case "MULTIPOLYGON":
 				var mp geom.MultiPolygon
 				for k := 1 + rng.Intn(3); k > 0; k-- {
 					lp := gen.ByName(fw.Pick(rng, cliKinds), rng, int64(12+rng.Intn(40)))
-					mp = append(mp, placePolygon(rng, gs, req, lp, outside && k == 1))
+					mp = append(mp, placePolygon(rng, gs, req, lp, outside && k == 1, pl.spread))
 				}
 				pl.hasOutside = pl.hasOutside || outside
 				r.Geom = mp
@@ -491,6 +521,9 @@ func judgeCLI(c *fw.Ctx, cc *CLICase) {
 						break
 					}
 				}
+				if len(exp) > 0 && len(pl.ids) >= 9 {
+					c.Rec.Count("non_empty_polygon_tables_in_runs_with_9_to_16_tile_matrices")
+				}
 				if len(exp) > 0 {
 					nt = true
 				}
@@ -582,6 +615,9 @@ func init() {
 		ID: "C13", Cases: tierN(200, 3000),
 		Run: func(c *fw.Ctx) {
 			cc := &CLICase{Seed: c.Rng.Uint64()}
+			if c.Idx%10 == 3 {
+				cc.ManyIDs = 9 + int(cc.Seed>>7%8) // 9..16 target files
+			}
 			if c.Tier == "thorough" && c.Idx%5 == 0 && os.Getenv("VERIF_TEXEL_RACE_BIN") != "" {
 				cc.Race = true
 			}
@@ -610,7 +646,7 @@ func init() {
 		},
 		Rule: "the real binary (built from /repo with -tags verif) on generated sources: 1-3 tables (POLYGON/MULTIPOLYGON tables with generated polygons placed in NetherlandsRDNewQuad, WebMercatorQuad, EuropeanETRS89_LAEAQuad or a synthetic dyadic set loaded through hook H2; POINT/LINESTRING tables), 0-40 features, 1-3 ids in random order, page sizes 1/2/3/1000, all flag combinations (every fourth run configured through the documented environment variables instead of the command line), target names with 0-2 dots in sub-directories, pre-existing target files with sentinel tables/rows when overwrite is on; oracle: exit status, exactly the files <name>_<id><ext>, per file the same tables as the source, polygon tables row by row = attributes + what snap.SnapPolygon (called in-process) returns for that id (feature omitted when nothing, several polygons -> MULTIPOLYGON, parts merged), other tables row-for-row copies, nothing of the planted file left; outside-grid polygon without the ignore flag -> non-zero exit; built-in non-quadtree sets -> non-zero exit and no target file; non-trivial = run whose polygon tables produced rows (or a demanded failure)",
 		Required: func(t string) []string {
-			r := []string{"configured_through_environment_variables", "polygon_tables_compared", "copied_tables_compared", "class:overwrite_of_planted_target", "features_omitted_at_some_matrix", "polygon_delivered_as_multipolygon", "target_in_subdirectory", "rows_compared"}
+			r := []string{"configured_through_environment_variables", "polygon_tables_compared", "copied_tables_compared", "class:overwrite_of_planted_target", "features_omitted_at_some_matrix", "polygon_delivered_as_multipolygon", "target_in_subdirectory", "rows_compared", "non_empty_polygon_tables_in_runs_with_9_to_16_tile_matrices"}
 			if t == "thorough" {
 				r = append(r, "class:non_quadtree_set", "class:outside_polygon_without_ignore", "class:outside_polygon_ignored", "dots_in_target_name:0", "dots_in_target_name:2")
 			}
